@@ -1,5 +1,6 @@
 import PyElf.Driver.Json
 import PyElf.Spec.LineProgram
+import PyElf.Spec.LineProgramExt
 import PyElf.Model.LineProgram
 import PyElf.Model.Env
 import PyElf.Gen.Extra_C05
@@ -138,7 +139,11 @@ def runQuery (env : Env) (S : DwarfStructs) (K : LnConsts) (fmt : Nat) (secs : S
                    ("decode", Json.mkObj [("ok", Json.mkObj [
                       ("entries", Json.arr (es.map entryJson).toArray),
                       ("file_entry_after", fileEntryOf lp'),
-                      ("tell", match tell with | some t => jN t | none => Json.null)])])],
+                      -- `stream.tell()` is compared only when the loop body ran at least once (otherwise the
+                      -- stream stands wherever the header parse left it, which is not the program's business)
+                      ("tell", match tell with
+                               | some t => if lp.program_start_offset < lp.program_end_offset then jN t else Json.null
+                               | none => Json.null)])])],
        Cache.update cache' off lp')
 
 def runQueries (env : Env) (S : DwarfStructs) (K : LnConsts) (fmt : Nat) (secs : Secs) (data : Bytes) :
@@ -174,37 +179,52 @@ def handle (req : Json) : Except String Json := do
     let ssecs : StrSecs := { lineStr := lineStr.getD [], str := str.getD [],
                              sup := if supPresent then supStr else none }
     let mut data : Bytes := []
-    let mut infos : List (Nat × Header × List Instr × Bool) := []
+    -- per unit: offset, header, extension bytes, instructions, in the property's domain?, what the theorems predict
+    let mut infos : List (Nat × Header × Bytes × List Instr × Bool × String) := []
     for u in units do
       let h ← headerOf (← u.getObjVal? "header")
       let is ← (← jArr u "instrs").mapM instrOf
       let gap ← jHex u "gap"
+      -- bytes between the last table and the program, covered by `header_length`
+      let ext ← match u.getObjVal? "ext" with
+        | .ok j => aHex j
+        | .error _ => pure []
       data := data ++ gap
       let off := data.length
+      let body := encodeProgram h.p is
       -- the string sections a well-formed unit refers to must be there
       let secsOk := lineStr.isSome && str.isSome
       -- the line table's format and address size are the unit's (DWARF 5 §7.4, §6.2.4)
       let cfgOk := decide (h.p.le = le) && decide (h.fmt64 = decide (fmt = 64)) && decide (h.p.asz = asz)
-      infos := infos ++ [(off, h, is, unitWF h ssecs is && secsOk && cfgOk)]
-      data := data ++ encodeUnit h is
+      -- encodable unit, standard operand counts, well-formed instructions: the theorems of Props/C05 apply
+      let encOk := unitWFX h ssecs ext body && h.p.stdLensOK && is.all (Instr.WF h.p h.version) && secsOk && cfgOk
+                   && decide (off + (encodeUnitX h ext body).length ≤ ssizeMax)
+      -- the property's domain: moreover the two divisors are not zero (`Params.WF`)
+      let wf := encOk && decide (1 ≤ h.p.maxOps) && decide (1 ≤ h.p.lineRange)
+      -- prediction: `line_rows_eq_std_ext` (no instruction divides by a zero field) / `line_zero_division`
+      let kind := if !encOk then "na" else if progOK h.p h.version is then "rows" else "zerodiv"
+      infos := infos ++ [(off, h, ext, is, wf, kind)]
+      data := data ++ encodeUnitX h ext body
     let tail ← jHex req "tail"
     data := data ++ tail
     let offs := infos.map (·.1)
-    let expects := infos.map fun (off, h, is, _) =>
+    let expects := infos.map fun (off, h, ext, is, _, _) =>
+      let body := encodeProgram h.p is
       let fe := if h.version ≥ 5 then Json.null
                 else Json.arr ((h.files ++ definedFiles is).map fun e => e.obs.toJson).toArray
-      Json.mkObj [("header", (h.observe ssecs is).toJson),
-                  ("start", jN (off + headerSize h)),
-                  ("end", jN (off + (encodeUnit h is).length)),
+      Json.mkObj [("header", (h.observeX ssecs ext body).toJson),
+                  ("start", jN (off + headerSizeX h ext)),
+                  ("end", jN (off + (encodeUnitX h ext body).length)),
                   ("rows", Json.arr ((stdRun h.p is).map rowJson).toArray),
                   ("file_entry_after", fe),
-                  ("tell", jN (off + (encodeUnit h is).length))]
+                  ("tell", if body.isEmpty then Json.null else jN (off + (encodeUnitX h ext body).length))]
     let qoffs ← queries.mapM fun q => match offs[q]? with
       | some o => pure o
       | none => throw "query out of range"
     let models := runQueries env S K fmt msecs data qoffs [] []
     return Json.mkObj [("bytes", jHexOf data), ("offsets", Json.arr (offs.map jN).toArray),
-                       ("wf", Json.arr (infos.map fun i => Json.bool i.2.2.2).toArray),
+                       ("wf", Json.arr (infos.map fun i => Json.bool i.2.2.2.2.1).toArray),
+                       ("kind", Json.arr (infos.map fun i => Json.str i.2.2.2.2.2).toArray),
                        ("expect", Json.arr expects.toArray), ("model", Json.arr models.toArray)]
   | "raw" =>
     let data ← jHex req "hex"
